@@ -117,3 +117,12 @@ def lc(ctx):
 
 
 RULES.append(lc)
+
+
+@rule("O3", doc="a merge hands the deprecated class's symmetries to the survivor whichever side is deprecated (shared with C10.G8): otherwise what is known afterwards depends on which class the union happened to keep")
+def o3(ctx):
+    from . import c10
+    c10.g8(ctx)
+
+
+RULES.append(o3)
